@@ -1174,4 +1174,506 @@ theorem zzRedMont_fast_eq (w : Nat) (m0 : Nat) (ms a : List Nat) (mp : Nat)
   · rw [if_pos hc, if_pos (this.mp hc)]
   · rw [if_neg hc, if_neg (fun h => hc (this.mpr h))]
 
+/-! ## §11 Crandall reduction -/
+
+theorem val_ones (w : Nat) (ms : List Nat) (h : ∀ x ∈ ms, x = 2 ^ w - 1) :
+    val w ms + 1 = 2 ^ (w * ms.length) := by
+  induction ms with
+  | nil => simp [val]
+  | cons x xs ih =>
+    have hx : x = 2 ^ w - 1 := h x List.mem_cons_self
+    have ih' := ih (fun y hy => h y (List.mem_cons_of_mem _ hy))
+    have hB : 0 < 2 ^ w := Nat.two_pow_pos w
+    have : 2 ^ w * (val w xs + 1) = 2 ^ w * 2 ^ (w * xs.length) := by rw [ih']
+    rw [Nat.mul_add] at this
+    rw [val_cons, List.length_cons, powS, hx]
+    omega
+
+theorem Wf_ones (w : Nat) (ms : List Nat) (h : ∀ x ∈ ms, x = 2 ^ w - 1) : Wf w ms := by
+  intro x hx
+  rw [h x hx]
+  have := Nat.two_pow_pos w
+  omega
+
+theorem zzAddW_zero (w : Nat) (a : List Nat) (ha : Wf w a) : zzAddW w a 0 = (a, 0) := by
+  induction a with
+  | nil => rfl
+  | cons a0 as ih =>
+    obtain ⟨ha0, has⟩ := Wf_cons.mp ha
+    simp [zzAddW, wadd, wless01, Nat.mod_eq_of_lt ha0, ih has]
+
+/-- the "add and cmp" loop of SAFE(zzRedCrand) = zzAddW2 followed by the compare-mask loop -/
+theorem zzRedCrandLoop_eq (w : Nat) (a ms : List Nat) (carry mask : Nat)
+    (hl : a.length = ms.length) :
+    zzRedCrandLoop w a ms carry mask
+      = ((zzAddW w a carry).1, (zzAddW w a carry).2,
+          (zzRedMontCmp (zzAddW w a carry).1 ms mask).2) := by
+  induction a generalizing ms carry mask with
+  | nil => cases ms <;> simp_all [zzRedCrandLoop, zzAddW, zzRedMontCmp]
+  | cons a0 as ih =>
+    cases ms with
+    | nil => simp at hl
+    | cons m0 ms =>
+      simp only [zzRedCrandLoop, zzAddW, zzRedMontCmp, ih ms _ _ (by simpa using hl)]
+
+/-- value-level end game of the Crandall reduction (`M + c = B^n`) -/
+theorem crand_finish {Pn M c va cy vr k : Nat} (hM : M + c = Pn) (hva : va < Pn)
+    (hcy : cy ≤ 1) (hV : va + Pn * cy < 2 * M) (hk : k ≤ 1) (hvr : vr < Pn)
+    (h : if cy ≠ 0 ∨ M ≤ va then vr + Pn * k = va + c else vr = va) :
+    vr < M ∧ ∃ d, va + Pn * cy = vr + M * d := by
+  obtain rfl | rfl : cy = 0 ∨ cy = 1 := by omega
+  all_goals obtain rfl | rfl : k = 0 ∨ k = 1 := by omega
+  all_goals
+    split_ifs at h with h1
+    · refine ⟨by omega, 1, by omega⟩
+    · refine ⟨by omega, 0, by omega⟩
+
+/-- the common part of both editions: iter1, iter2 and the carry propagation give
+    `a' + B^n cy ≡ a (mod M)`, `< 2M` -/
+theorem crand_pre (w : Nat) (m0 : Nat) (ms a : List Nat) (ha : Wf w a)
+    (hm0 : 0 < m0) (hm0B : m0 < 2 ^ w) (hms : ∀ x ∈ ms, x = 2 ^ w - 1) (hms1 : 0 < ms.length)
+    (hl : a.length = (ms.length + 1) + (ms.length + 1)) :
+    ∃ a0 at1 r12,
+      zzAddMulWLoop w (a.take (ms.length + 1)) (a.drop (ms.length + 1)) (wneg w m0) 0
+        = (a0 :: at1, r12)
+      ∧ at1.length = ms.length ∧ Wf w at1
+      ∧ dlo w (dshr w (dadd w (dmul w r12 (wneg w m0)) a0)) < 2 ^ w
+      ∧ dlo w (dadd w (dmul w r12 (wneg w m0)) a0) < 2 ^ w
+      ∧ ∃ q, val w a = (val w (dlo w (dadd w (dmul w r12 (wneg w m0)) a0)
+            :: (zzAddW w at1 (dlo w (dshr w (dadd w (dmul w r12 (wneg w m0)) a0)))).1)
+          + 2 ^ (w * (ms.length + 1))
+            * (zzAddW w at1 (dlo w (dshr w (dadd w (dmul w r12 (wneg w m0)) a0)))).2)
+          + val w (m0 :: ms) * q
+        ∧ val w (dlo w (dadd w (dmul w r12 (wneg w m0)) a0)
+            :: (zzAddW w at1 (dlo w (dshr w (dadd w (dmul w r12 (wneg w m0)) a0)))).1)
+          + 2 ^ (w * (ms.length + 1))
+            * (zzAddW w at1 (dlo w (dshr w (dadd w (dmul w r12 (wneg w m0)) a0)))).2
+          < 2 * val w (m0 :: ms) := by
+  have hB : 0 < 2 ^ w := Nat.two_pow_pos w
+  have hc : wneg w m0 = 2 ^ w - m0 := by
+    show (2 ^ w - m0 % 2 ^ w) % 2 ^ w = _
+    rw [Nat.mod_eq_of_lt hm0B, Nat.mod_eq_of_lt (by omega)]
+  have hcB : wneg w m0 < 2 ^ w := by omega
+  have hc0 : 0 < wneg w m0 := by omega
+  -- modulus
+  have hM : val w (m0 :: ms) + wneg w m0 = 2 ^ (w * (ms.length + 1)) := by
+    have h1 := val_ones w ms hms
+    have : 2 ^ w * (val w ms + 1) = 2 ^ w * 2 ^ (w * ms.length) := by rw [h1]
+    rw [Nat.mul_add] at this
+    rw [val_cons, powS, hc]; omega
+  -- iter1
+  have htl : (a.take (ms.length + 1)).length = (a.drop (ms.length + 1)).length := by
+    rw [List.length_take, List.length_drop, hl]; omega
+  have htl' : (a.take (ms.length + 1)).length = ms.length + 1 := by
+    rw [List.length_take, hl]; omega
+  obtain ⟨s1, s2, s3, s4⟩ := zzAddMulWLoop_spec w (a.take (ms.length + 1))
+    (a.drop (ms.length + 1)) (wneg w m0) 0 (Wf_take ha _) (Wf_drop ha _) htl hcB hB
+  have hsplit := val_take_drop w a (ms.length + 1) (by rw [hl]; omega)
+  rw [htl'] at s1 s4
+  generalize zzAddMulWLoop w (a.take (ms.length + 1)) (a.drop (ms.length + 1)) (wneg w m0) 0
+    = r1 at *
+  obtain ⟨r11, r12⟩ := r1
+  simp only at s1 s2 s3 s4
+  obtain ⟨a0, at1, rfl⟩ : ∃ a0 at1, r11 = a0 :: at1 := by
+    cases r11 with
+    | nil => simp at s4
+    | cons x t => exact ⟨x, t, rfl⟩
+  obtain ⟨ha0, hat1⟩ := Wf_cons.mp s3
+  have hlat : at1.length = ms.length := by simpa using s4
+  -- iter2
+  have hp := mul_add_lt s2 hcB ha0 hB
+  have hprod : dadd w (dmul w r12 (wneg w m0)) a0 = r12 * wneg w m0 + a0 := by
+    simp only [dadd, dmul, pow2w]
+    rw [Nat.mod_eq_of_lt (a := r12 * wneg w m0) (by omega), Nat.mod_eq_of_lt (by omega)]
+  obtain ⟨d1, d2, d3, d4⟩ := split_dword hB (p := r12 * wneg w m0 + a0) (by omega)
+  have hlo : dlo w (dadd w (dmul w r12 (wneg w m0)) a0) = (r12 * wneg w m0 + a0) % 2 ^ w := by
+    rw [hprod]
+  have hhi : dlo w (dshr w (dadd w (dmul w r12 (wneg w m0)) a0))
+      = (r12 * wneg w m0 + a0) / 2 ^ w % 2 ^ w := by
+    rw [hprod]
+  refine ⟨a0, at1, r12, rfl, hlat, hat1, by rw [hhi]; exact d3, by rw [hlo]; exact d2, ?_⟩
+  rw [hlo, hhi]
+  obtain ⟨u1, _, u3, u4, u5⟩ := zzAddW_spec w at1 ((r12 * wneg w m0 + a0) / 2 ^ w % 2 ^ w) hat1 d3
+  have u3' := u3 (Or.inr (by intro h; rw [h] at hlat; simp at hlat; omega))
+  rw [hlat] at u1
+  generalize zzAddW w at1 ((r12 * wneg w m0 + a0) / 2 ^ w % 2 ^ w) = r2 at *
+  have hva1 := val_lt hat1
+  rw [hlat] at hva1
+  have hBP : 2 ^ w ≤ 2 ^ (w * ms.length) :=
+    Nat.pow_le_pow_right (by omega) (Nat.le_mul_of_pos_right w hms1)
+  simp only [val_cons] at s1 hM ⊢
+  rw [powS] at s1 hM hsplit ⊢
+  generalize (r12 * wneg w m0 + a0) / 2 ^ w % 2 ^ w = hi at *
+  generalize (r12 * wneg w m0 + a0) % 2 ^ w = lo at *
+  generalize 2 ^ (w * ms.length) = P at *
+  generalize wneg w m0 = c at *
+  generalize val w (List.take (ms.length + 1) a) = vlo at *
+  generalize val w (List.drop (ms.length + 1) a) = vhi at *
+  generalize val w ms = vms at *
+  generalize val w at1 = vat at *
+  generalize val w a = va at *
+  generalize 2 ^ w = B at *
+  clear hprod hhi hlo hms u3 u4 u5 s3 s4 hat1 hlat htl htl' hl ha
+  obtain ⟨r21, r22⟩ := r2
+  simp only at *
+  generalize val w r21 = v2 at *
+  have e1 : B * (v2 + P * r22) = B * (vat + hi) := by rw [u1]
+  have hrc : r12 * c ≤ (B - 1) * (B - 1) := Nat.mul_le_mul (by omega) (by omega)
+  refine ⟨vhi + r12, ?_, ?_⟩
+  · have h1 : B * P * vhi = (m0 + B * vms) * vhi + c * vhi := by rw [← hM]; ring
+    have h2 : B * P * r12 = (m0 + B * vms) * r12 + c * r12 := by rw [← hM]; ring
+    linarith [s1, e1, d1, hsplit, h1, h2]
+  · have hBB : B * B ≤ B * P := Nat.mul_le_mul_left _ hBP
+    have hsq : (B - 1) * (B - 1) + 2 * B ≤ B * B + 1 := by
+      obtain ⟨k, rfl⟩ : ∃ k, B = k + 1 := ⟨B - 1, by omega⟩
+      simp only [Nat.add_sub_cancel]; nlinarith
+    have hbv : B * (vat + 1) ≤ B * P := Nat.mul_le_mul_left _ hva1
+    linarith [s1, e1, d1, hM, hrc, hBB, hsq, hbv]
+
+/-- what both editions of zzRedCrand compute -/
+def crandRes (w : Nat) (m0 : Nat) (ms a : List Nat) : List Nat :=
+  match (zzAddMulWLoop w (a.take (ms.length + 1)) (a.drop (ms.length + 1)) (wneg w m0) 0).1 with
+  | [] => []
+  | a0 :: at1 =>
+    if (zzAddW w at1 (dlo w (dshr w (dadd w (dmul w (zzAddMulWLoop w (a.take (ms.length + 1))
+          (a.drop (ms.length + 1)) (wneg w m0) 0).2 (wneg w m0)) a0)))).2 ≠ 0
+      ∨ val w (m0 :: ms) ≤ val w (dlo w (dadd w (dmul w (zzAddMulWLoop w (a.take (ms.length + 1))
+          (a.drop (ms.length + 1)) (wneg w m0) 0).2 (wneg w m0)) a0)
+        :: (zzAddW w at1 (dlo w (dshr w (dadd w (dmul w (zzAddMulWLoop w (a.take (ms.length + 1))
+          (a.drop (ms.length + 1)) (wneg w m0) 0).2 (wneg w m0)) a0)))).1)
+    then (zzAddW w (dlo w (dadd w (dmul w (zzAddMulWLoop w (a.take (ms.length + 1))
+          (a.drop (ms.length + 1)) (wneg w m0) 0).2 (wneg w m0)) a0)
+        :: (zzAddW w at1 (dlo w (dshr w (dadd w (dmul w (zzAddMulWLoop w (a.take (ms.length + 1))
+          (a.drop (ms.length + 1)) (wneg w m0) 0).2 (wneg w m0)) a0)))).1) (wneg w m0)).1
+    else dlo w (dadd w (dmul w (zzAddMulWLoop w (a.take (ms.length + 1))
+          (a.drop (ms.length + 1)) (wneg w m0) 0).2 (wneg w m0)) a0)
+        :: (zzAddW w at1 (dlo w (dshr w (dadd w (dmul w (zzAddMulWLoop w (a.take (ms.length + 1))
+          (a.drop (ms.length + 1)) (wneg w m0) 0).2 (wneg w m0)) a0)))).1
+
+theorem crandRes_spec (w : Nat) (m0 : Nat) (ms a : List Nat) (ha : Wf w a)
+    (hm0 : 0 < m0) (hm0B : m0 < 2 ^ w) (hms : ∀ x ∈ ms, x = 2 ^ w - 1) (hms1 : 0 < ms.length)
+    (hl : a.length = (ms.length + 1) + (ms.length + 1)) :
+    val w (crandRes w m0 ms a) = val w a % val w (m0 :: ms)
+    ∧ val w (crandRes w m0 ms a) < val w (m0 :: ms)
+    ∧ Wf w (crandRes w m0 ms a) ∧ (crandRes w m0 ms a).length = ms.length + 1 := by
+  obtain ⟨a0, at1, r12, hr1, hlat, hat1, hhiB, hloB, q, hq, hV⟩ :=
+    crand_pre w m0 ms a ha hm0 hm0B hms hms1 hl
+  unfold crandRes
+  rw [hr1]
+  simp only
+  have hc : wneg w m0 = 2 ^ w - m0 := by
+    show (2 ^ w - m0 % 2 ^ w) % 2 ^ w = _
+    rw [Nat.mod_eq_of_lt hm0B, Nat.mod_eq_of_lt (by omega)]
+  have hcB : wneg w m0 < 2 ^ w := by omega
+  have hM : val w (m0 :: ms) + wneg w m0 = 2 ^ (w * (ms.length + 1)) := by
+    have h1 := val_ones w ms hms
+    have : 2 ^ w * (val w ms + 1) = 2 ^ w * 2 ^ (w * ms.length) := by rw [h1]
+    rw [Nat.mul_add] at this
+    rw [val_cons, powS, hc]; omega
+  obtain ⟨u1, _, u3, u4, u5⟩ := zzAddW_spec w at1
+    (dlo w (dshr w (dadd w (dmul w r12 (wneg w m0)) a0))) hat1 hhiB
+  have u3' := u3 (Or.inr (by intro h; rw [h] at hlat; simp at hlat; omega))
+  generalize dlo w (dshr w (dadd w (dmul w r12 (wneg w m0)) a0)) = hi at *
+  generalize dlo w (dadd w (dmul w r12 (wneg w m0)) a0) = lo at *
+  generalize zzAddW w at1 hi = r2 at *
+  have hWa' : Wf w (lo :: r2.1) := Wf_cons.mpr ⟨hloB, u4⟩
+  have hla' : (lo :: r2.1).length = ms.length + 1 := by simp [u5, hlat]
+  obtain ⟨v1, _, v3, v4, v5⟩ := zzAddW_spec w (lo :: r2.1) (wneg w m0) hWa' hcB
+  have v3' := v3 (Or.inr (by simp))
+  rw [hla'] at v1 v5
+  have hva' := val_lt hWa'
+  have hvr := val_lt v4
+  rw [hla'] at hva'
+  rw [v5] at hvr
+  generalize zzAddW w (lo :: r2.1) (wneg w m0) = r3 at *
+  generalize val w (m0 :: ms) = M at *
+  generalize 2 ^ (w * (ms.length + 1)) = Pn at *
+  generalize wneg w m0 = c at *
+  by_cases hcnd : r2.2 ≠ 0 ∨ M ≤ val w (lo :: r2.1)
+  · rw [if_pos hcnd]
+    obtain ⟨f1, d, f2⟩ := crand_finish (k := r3.2) (vr := val w r3.1) hM hva' u3' hV v3' hvr
+      (by rw [if_pos hcnd]; exact v1)
+    refine ⟨?_, f1, v4, v5⟩
+    rw [hq, f2, Nat.add_assoc, ← Nat.mul_add, Nat.add_mul_mod_self_left, Nat.mod_eq_of_lt f1]
+  · rw [if_neg hcnd]
+    obtain ⟨f1, d, f2⟩ := crand_finish (k := 0) (vr := val w (lo :: r2.1)) hM hva' u3' hV (by omega) hva'
+      (by rw [if_neg hcnd])
+    refine ⟨?_, f1, hWa', hla'⟩
+    rw [hq, f2, Nat.add_assoc, ← Nat.mul_add, Nat.add_mul_mod_self_left, Nat.mod_eq_of_lt f1]
+
+theorem zzRedCrand_fast_eq (w : Nat) (m0 : Nat) (ms a : List Nat) (ha : Wf w a)
+    (hm0 : 0 < m0) (hm0B : m0 < 2 ^ w) (hms : ∀ x ∈ ms, x = 2 ^ w - 1) (hms1 : 0 < ms.length)
+    (hl : a.length = (ms.length + 1) + (ms.length + 1)) :
+    zzRedCrand_fast w a (m0 :: ms) = crandRes w m0 ms a := by
+  obtain ⟨a0, at1, r12, hr1, hlat, hat1, hhiB, hloB, _⟩ :=
+    crand_pre w m0 ms a ha hm0 hm0B hms hms1 hl
+  unfold zzRedCrand_fast crandRes
+  simp only [List.length_cons, List.headD_cons, zzAddMulW, zzAddW2]
+  simp only [hr1]
+  obtain ⟨_, _, _, u4, u5⟩ := zzAddW_spec w at1
+    (dlo w (dshr w (dadd w (dmul w r12 (wneg w m0)) a0))) hat1 hhiB
+  have hmod : Wf w (m0 :: ms) := Wf_cons.mpr ⟨hm0B, Wf_ones w ms hms⟩
+  have hcmp := wwCmp_safe_ge w (dlo w (dadd w (dmul w r12 (wneg w m0)) a0)
+      :: (zzAddW w at1 (dlo w (dshr w (dadd w (dmul w r12 (wneg w m0)) a0)))).1) (m0 :: ms)
+    (Wf_cons.mpr ⟨hloB, u4⟩) hmod (by simp only [List.length_cons, u5, hlat])
+  simp only [hcmp]
+
+theorem zzRedCrand_safe_eq (w : Nat) (m0 : Nat) (ms a : List Nat) (ha : Wf w a)
+    (hm0 : 0 < m0) (hm0B : m0 < 2 ^ w) (hms : ∀ x ∈ ms, x = 2 ^ w - 1) (hms1 : 0 < ms.length)
+    (hl : a.length = (ms.length + 1) + (ms.length + 1)) :
+    zzRedCrand_safe w a (m0 :: ms) = crandRes w m0 ms a := by
+  obtain ⟨a0, at1, r12, hr1, hlat, hat1, hhiB, hloB, _⟩ :=
+    crand_pre w m0 ms a ha hm0 hm0B hms hms1 hl
+  have hw : 0 < w := by
+    rcases Nat.eq_zero_or_pos w with h | h
+    · subst h; simp at hm0B; omega
+    · exact h
+  have hcB : wneg w m0 < 2 ^ w := Nat.mod_lt _ (Nat.two_pow_pos w)
+  unfold zzRedCrand_safe crandRes
+  simp only [List.length_cons, List.headD_cons, List.tail_cons, zzAddMulW, zzAddW2]
+  simp only [hr1]
+  rw [zzRedCrandLoop_eq w at1 ms _ _ hlat]
+  simp only
+  obtain ⟨_, _, u3, u4, u5⟩ := zzAddW_spec w at1
+    (dlo w (dshr w (dadd w (dmul w r12 (wneg w m0)) a0))) hat1 hhiB
+  have u3' := u3 (Or.inr (by intro h; rw [h] at hlat; simp at hlat; omega))
+  have hmod : Wf w (m0 :: ms) := Wf_cons.mpr ⟨hm0B, Wf_ones w ms hms⟩
+  generalize dlo w (dshr w (dadd w (dmul w r12 (wneg w m0)) a0)) = hi at *
+  generalize dlo w (dadd w (dmul w r12 (wneg w m0)) a0) = lo at *
+  generalize zzAddW w at1 hi = r2 at *
+  have hWa' : Wf w (lo :: r2.1) := Wf_cons.mpr ⟨hloB, u4⟩
+  -- the mask is the full comparison of a' with mod
+  have hmask0 : wleq01 m0 lo = maskStep 1 m0 lo := by
+    rw [maskStep01 (by omega)]
+    show (if m0 ≤ lo then 1 else 0) = _
+    split_ifs <;> first | rfl | (exfalso; omega)
+  have hmask : (zzRedMontCmp r2.1 ms (wleq01 m0 lo)).2
+      = (zzRedMontCmp (lo :: r2.1) (m0 :: ms) 1).2 := by
+    rw [hmask0]; rfl
+  obtain ⟨_, c2⟩ := zzRedMontCmp_spec w (lo :: r2.1) (m0 :: ms) 1 hWa' hmod
+    (by simp [u5, hlat]) (by omega)
+  rw [hmask, c2]
+  have hf : (if val w (m0 :: ms) < val w (lo :: r2.1) then 1
+      else if val w (m0 :: ms) = val w (lo :: r2.1) then 1 else 0) ||| r2.2 ≤ 1 :=
+    lor_le_one (by split_ifs <;> omega) u3'
+  rw [wneg01 hw hf]
+  generalize val w (lo :: r2.1) = va' at *
+  generalize val w (m0 :: ms) = M at *
+  by_cases hcnd : r2.2 ≠ 0 ∨ M ≤ va'
+  · rw [if_pos hcnd]
+    have hne : ¬ ((if M < va' then 1 else if M = va' then 1 else 0) ||| r2.2 = 0) := by
+      intro h
+      rw [Nat.or_eq_zero_iff] at h
+      obtain ⟨h1, h2⟩ := h
+      split_ifs at h1 <;> omega
+    rw [if_neg hne, and_ones hcB]
+  · rw [if_neg hcnd]
+    have he : (if M < va' then 1 else if M = va' then 1 else 0) ||| r2.2 = 0 := by
+      rw [Nat.or_eq_zero_iff]
+      refine ⟨?_, by omega⟩
+      split_ifs <;> omega
+    rw [if_pos he, Nat.zero_and, zzAddW_zero w _ hWa']
+
+/-! ## §12 zzModW2 -/
+
+/-- `b = (WORD_MAX - w + 1) % w` is `B mod w` -/
+theorem zzModW2B_eq (w x : Nat) (hx0 : 0 < x) (hx : x < 2 ^ w) : zzModW2B w x = 2 ^ w % x := by
+  show ((2 ^ w - 1 + (2 ^ w - x % 2 ^ w)) % 2 ^ w + 1) % 2 ^ w % x = _
+  rw [Nat.mod_eq_of_lt hx]
+  have h1 : (2 ^ w - 1 + (2 ^ w - x)) % 2 ^ w = 2 ^ w - 1 - x := by
+    rw [mod_wrap (by omega)]; split_ifs <;> omega
+  have h2 : (2 ^ w - 1 - x + 1) % 2 ^ w = 2 ^ w - x := by
+    rw [Nat.mod_eq_of_lt (by omega)]; omega
+  rw [h1, h2]
+  exact (Nat.mod_eq_sub_mod (by omega)).symm
+
+theorem mod_cong1 {x B b r1 r0 : Nat} (hb : b = B % x) :
+    (r1 * b + r0 % x) % x = (r1 * B + r0) % x := by
+  subst hb
+  rw [Nat.add_mod, Nat.mul_mod, Nat.mod_mod, Nat.mod_mod, ← Nat.mul_mod, ← Nat.add_mod]
+
+theorem mod_cong2 {x B b r1 r0 a0 v : Nat} (hb : b = B % x) (h : (r1 * B + r0) % x = v % x) :
+    ((r1 * b + r0) * b + a0) % x = (a0 + B * v) % x := by
+  have e : (r1 * b + r0) % x = v % x := by
+    rw [← h, hb, Nat.add_mod, Nat.mul_mod, Nat.mod_mod, ← Nat.mul_mod, ← Nat.add_mod]
+  calc ((r1 * b + r0) * b + a0) % x
+      = (((r1 * b + r0) % x) * (b % x) % x + a0 % x) % x := by rw [Nat.add_mod, Nat.mul_mod]
+    _ = ((v % x) * (B % x) % x + a0 % x) % x := by rw [e, hb, Nat.mod_mod]
+    _ = (a0 + B * v) % x := by
+      rw [Nat.add_mod a0, Nat.mul_mod B, Nat.add_comm, Nat.mul_comm]
+
+/-- one iteration of the first loop of zzModW2: no double-word overflow, the bound
+    `r1 ≤ b + b^2` is kept (comment block above zzDivW) -/
+theorem modw2StepB {B b r1 r0 a0 : Nat} (hB : 0 < B) (hK : b + b * b + 1 ≤ B)
+    (hr1 : r1 ≤ b + b * b) (hr0 : r0 < B) (ha0 : a0 < B) :
+    let T := ((r1 * b % (B * B) + r0) % (B * B) * b % (B * B) + a0) % (B * B)
+    T = (r1 * b + r0) * b + a0 ∧ T / B ≤ b + b * b ∧ T % B < B := by
+  intro T
+  obtain ⟨u, rfl⟩ : ∃ u, B = u + 1 := ⟨B - 1, by omega⟩
+  generalize hKd : b + b * b = K at *
+  have h1 : r1 * b ≤ K * b := Nat.mul_le_mul_right _ hr1
+  have h2 : (r1 * b + r0) * b ≤ (K * b + u) * b := Nat.mul_le_mul_right _ (by omega)
+  have h3 : K * b * b ≤ u * (b * b) := by
+    rw [Nat.mul_assoc]; exact Nat.mul_le_mul_right _ (by omega)
+  have h4 : (r1 * b + r0) * b + a0 ≤ u * (K + 1) := by
+    have : (K * b + u) * b = K * b * b + u * b := by ring
+    have : u * (K + 1) = u * (b * b) + u * b + u := by rw [← hKd]; ring
+    omega
+  have h5 : u * (K + 1) < (u + 1) * (K + 1) := by nlinarith
+  have h6 : (u + 1) * (K + 1) ≤ (u + 1) * (u + 1) := Nat.mul_le_mul_left _ (by omega)
+  have hb1 : r1 * b ≤ (r1 * b + r0) * b + a0 ∨ b = 0 := by
+    rcases Nat.eq_zero_or_pos b with h | h
+    · right; exact h
+    · left
+      have : (r1 * b + r0) * 1 ≤ (r1 * b + r0) * b := Nat.mul_le_mul_left _ h
+      omega
+  have e1 : r1 * b % ((u + 1) * (u + 1)) = r1 * b := Nat.mod_eq_of_lt (by
+    rcases hb1 with h | h
+    · omega
+    · subst h; simp)
+  have hS : r1 * b + r0 < (u + 1) * (u + 1) := by
+    have := mul_add_lt (B := u + 1) (x := r1) (a := b) (c := r0) (b := 0) (by omega) (by omega)
+      hr0 (by omega)
+    omega
+  have e : T = (r1 * b + r0) * b + a0 := by
+    show ((r1 * b % ((u + 1) * (u + 1)) + r0) % ((u + 1) * (u + 1)) * b % ((u + 1) * (u + 1)) + a0)
+      % ((u + 1) * (u + 1)) = _
+    rw [e1, Nat.mod_eq_of_lt hS, Nat.mod_eq_of_lt (a := (r1 * b + r0) * b) (by omega),
+      Nat.mod_eq_of_lt (by omega)]
+  refine ⟨e, ?_, Nat.mod_lt _ hB⟩
+  rw [e]
+  have : ((r1 * b + r0) * b + a0) / (u + 1) < K + 1 := Nat.div_lt_of_lt_mul (by omega)
+  omega
+
+theorem zzModW2Loop_spec (w : Nat) (x : Nat) (a : List Nat) (ha : Wf w a)
+    (hK : 2 ^ w % x + 2 ^ w % x * (2 ^ w % x) + 1 ≤ 2 ^ w) :
+    (zzModW2Loop w (2 ^ w % x) a).1 ≤ 2 ^ w % x + 2 ^ w % x * (2 ^ w % x)
+    ∧ (zzModW2Loop w (2 ^ w % x) a).2 < 2 ^ w
+    ∧ ((zzModW2Loop w (2 ^ w % x) a).1 * 2 ^ w + (zzModW2Loop w (2 ^ w % x) a).2) % x
+      = val w a % x := by
+  have hB : 0 < 2 ^ w := Nat.two_pow_pos w
+  induction a with
+  | nil => simp [zzModW2Loop, val, hB]
+  | cons a0 as ih =>
+    obtain ⟨ha0, has⟩ := Wf_cons.mp ha
+    obtain ⟨i1, i2, i3⟩ := ih has
+    obtain ⟨s1, s2, s3⟩ := modw2StepB hB hK i1 i2 ha0
+    simp only [zzModW2Loop, dmul, dadd, dshr, dlo, pow2w, val_cons]
+    refine ⟨s2, s3, ?_⟩
+    rw [Nat.mul_comm, Nat.div_add_mod, s1]
+    exact mod_cong2 rfl i3
+
+/-- one normalisation step `r <- r1 b + (r0 % mod)` -/
+theorem modw2NormB {B x b r1 r0 bound : Nat} (hx0 : 0 < x) (hxB : x ≤ B) (hb : b = B % x)
+    (hr1 : r1 ≤ bound) (hbound : bound < B) :
+    let T := (r1 * b % (B * B) + r0 % x) % (B * B)
+    T = r1 * b + r0 % x ∧ T ≤ (bound + 1) * (x - 1) ∧ T % x = (r1 * B + r0) % x := by
+  intro T
+  have hbx : b < x := by rw [hb]; exact Nat.mod_lt _ hx0
+  have hm : r0 % x < x := Nat.mod_lt _ hx0
+  have h1 : r1 * b ≤ bound * (x - 1) := Nat.mul_le_mul hr1 (by omega)
+  have h2 : (bound + 1) * (x - 1) = bound * (x - 1) + (x - 1) := by rw [Nat.add_mul, Nat.one_mul]
+  have h3 : (bound + 1) * (x - 1) ≤ B * (x - 1) := Nat.mul_le_mul_right _ (by omega)
+  have h4 : B * (x - 1) < B * B := Nat.mul_lt_mul_of_pos_left (by omega) (by omega)
+  have e : T = r1 * b + r0 % x := by
+    show (r1 * b % (B * B) + r0 % x) % (B * B) = _
+    rw [Nat.mod_eq_of_lt (a := r1 * b) (by omega), Nat.mod_eq_of_lt (by omega)]
+  refine ⟨e, by omega, ?_⟩
+  rw [e]; exact mod_cong1 hb
+
+theorem zzModW2_pre {w x : Nat} (hx2 : 2 ≤ x) (hxx : x * x ≤ 2 ^ w) :
+    x < 2 ^ w ∧ 2 ^ w % x + 2 ^ w % x * (2 ^ w % x) + 1 ≤ 2 ^ w := by
+  have h1 : x * 2 ≤ x * x := Nat.mul_le_mul_left _ hx2
+  have hb : 2 ^ w % x < x := Nat.mod_lt _ (by omega)
+  generalize 2 ^ w % x = b at *
+  obtain ⟨y, rfl⟩ : ∃ y, x = y + 1 := ⟨x - 1, by omega⟩
+  have h2 : b * (b + 1) ≤ y * (y + 1) := Nat.mul_le_mul (by omega) (by omega)
+  have h3 : (y + 1) * (y + 1) = y * (y + 1) + (y + 1) := by ring
+  have h4 : b * (b + 1) = b * b + b := by ring
+  exact ⟨by omega, by omega⟩
+
+theorem zzModW2_spec (w : Nat) (a : List Nat) (x : Nat) (ha : Wf w a) (hx0 : 0 < x)
+    (hxx : x * x ≤ 2 ^ w) : zzModW2 w a x = val w a % x := by
+  rcases Nat.lt_or_ge x 2 with h1 | hx2
+  · obtain rfl : x = 1 := by omega
+    simp [zzModW2, Nat.mod_one]
+  obtain ⟨hxB, hK⟩ := zzModW2_pre hx2 hxx
+  have hB : 0 < 2 ^ w := Nat.two_pow_pos w
+  obtain ⟨l1, l2, l3⟩ := zzModW2Loop_spec w x a ha hK
+  unfold zzModW2
+  simp only [zzModW2B_eq w x hx0 hxB, dmul, dadd, dshr, dlo, pow2w]
+  generalize zzModW2Loop w (2 ^ w % x) a = st at *
+  obtain ⟨a1, a2, a3⟩ := modw2NormB (B := 2 ^ w) (b := 2 ^ w % x) (r0 := st.2) hx0 (by omega) rfl
+    (show st.1 ≤ 2 ^ w - 1 by omega) (by omega)
+  have a3' := a3.trans l3
+  generalize (st.1 * (2 ^ w % x) % (2 ^ w * 2 ^ w) + st.2 % x) % (2 ^ w * 2 ^ w) = T1 at *
+  have hT1 : T1 / 2 ^ w ≤ x - 1 := by
+    apply Nat.div_le_of_le_mul
+    rw [Nat.sub_add_cancel (by omega)] at a2
+    exact a2
+  obtain ⟨b1, b2, b3⟩ := modw2NormB (B := 2 ^ w) (b := 2 ^ w % x) (r0 := T1 % 2 ^ w) hx0 (by omega) rfl hT1 (by omega)
+  rw [Nat.mul_comm (T1 / 2 ^ w) (2 ^ w), Nat.div_add_mod] at b3
+  generalize (T1 / 2 ^ w * (2 ^ w % x) % (2 ^ w * 2 ^ w) + T1 % 2 ^ w % x) % (2 ^ w * 2 ^ w)
+    = T2 at *
+  have hT2 : T2 < 2 ^ w := by
+    rw [Nat.sub_add_cancel (by omega)] at b2
+    have : x * (x - 1) < x * x := Nat.mul_lt_mul_of_pos_left (by omega) (by omega)
+    omega
+  rw [Nat.mod_eq_of_lt hT2, b3, a3']
+
+theorem zzModW2FLoop_zero (w b x fuel r0 : Nat) : zzModW2FLoop w b x fuel 0 r0 = (0, r0) := by
+  cases fuel <;> simp [zzModW2FLoop]
+
+theorem zzModW2FLoop_spec (w x fuel r1 r0 : Nat) (hx2 : 2 ≤ x) (hxx : x * x ≤ 2 ^ w)
+    (hfuel : 2 ≤ fuel) (hr1 : r1 < 2 ^ w) :
+    (zzModW2FLoop w (2 ^ w % x) x fuel r1 r0).2 % x = (r1 * 2 ^ w + r0) % x := by
+  obtain ⟨hxB, _⟩ := zzModW2_pre hx2 hxx
+  obtain ⟨f, rfl⟩ : ∃ f, fuel = f + 2 := ⟨fuel - 2, by omega⟩
+  have hB : 0 < 2 ^ w := Nat.two_pow_pos w
+  by_cases h0 : r1 = 0
+  · subst h0; simp [zzModW2FLoop_zero]
+  obtain ⟨a1, a2, a3⟩ := modw2NormB (B := 2 ^ w) (b := 2 ^ w % x) (r0 := r0) (show 0 < x by omega) (by omega) rfl
+    (show r1 ≤ 2 ^ w - 1 by omega) (by omega)
+  rw [zzModW2FLoop]
+  simp only [h0, if_false, dmul, dadd, dshr, dlo, pow2w]
+  rw [← a3]
+  generalize (r1 * (2 ^ w % x) % (2 ^ w * 2 ^ w) + r0 % x) % (2 ^ w * 2 ^ w) = T1 at *
+  have hT1 : T1 / 2 ^ w ≤ x - 1 := by
+    apply Nat.div_le_of_le_mul
+    rw [Nat.sub_add_cancel (by omega)] at a2
+    exact a2
+  by_cases h1 : T1 / 2 ^ w = 0
+  · rw [h1, zzModW2FLoop_zero]
+    have := Nat.div_add_mod T1 (2 ^ w)
+    rw [h1] at this
+    simp only [Nat.mul_zero, Nat.zero_add] at this
+    rw [this]
+  obtain ⟨b1, b2, b3⟩ := modw2NormB (B := 2 ^ w) (b := 2 ^ w % x) (r0 := T1 % 2 ^ w) (show 0 < x by omega) (by omega) rfl hT1
+    (by omega)
+  rw [Nat.mul_comm (T1 / 2 ^ w) (2 ^ w), Nat.div_add_mod] at b3
+  rw [zzModW2FLoop]
+  simp only [h1, if_false, dmul, dadd, dshr, dlo, pow2w]
+  generalize (T1 / 2 ^ w * (2 ^ w % x) % (2 ^ w * 2 ^ w) + T1 % 2 ^ w % x) % (2 ^ w * 2 ^ w)
+    = T2 at *
+  have hT2 : T2 < 2 ^ w := by
+    rw [Nat.sub_add_cancel (by omega)] at b2
+    have : x * (x - 1) < x * x := Nat.mul_lt_mul_of_pos_left (by omega) (by omega)
+    omega
+  rw [Nat.div_eq_of_lt hT2, zzModW2FLoop_zero, Nat.mod_eq_of_lt hT2, b3]
+
+theorem zzModW2F_spec (w : Nat) (a : List Nat) (x : Nat) (ha : Wf w a) (hx0 : 0 < x)
+    (hxx : x * x ≤ 2 ^ w) : zzModW2F w a x = val w a % x := by
+  rcases Nat.lt_or_ge x 2 with h1 | hx2
+  · obtain rfl : x = 1 := by omega
+    simp [zzModW2F, Nat.mod_one]
+  obtain ⟨hxB, hK⟩ := zzModW2_pre hx2 hxx
+  obtain ⟨l1, l2, l3⟩ := zzModW2Loop_spec w x a ha hK
+  unfold zzModW2F
+  simp only [zzModW2B_eq w x hx0 hxB]
+  have hfuel : 2 ≤ 2 ^ (2 * w) := by
+    rw [pow2w]
+    have : 2 * 2 ≤ 2 ^ w * 2 ^ w := Nat.mul_le_mul (by omega) (by omega)
+    omega
+  rw [zzModW2FLoop_spec w x _ _ _ hx2 hxx hfuel (by omega), l3]
+
 end Bee2V.C05.Mul
